@@ -139,16 +139,17 @@ RBDL_DLLAPI void NonlinearEffects (
 
     if (!model.mBodies[i].mIsVirtual) {
       model.f[i] = model.I[i] * model.a[i] + crossf(model.v[i],model.I[i] * model.v[i]);
-#ifdef RBDL_USE_CASADI_MATH
-      if (f_ext != NULL)
-#else
-      if (f_ext != NULL && (*f_ext)[i] != SpatialVector::Zero())
-#endif
-      {
-        model.f[i] -= model.X_base[i].toMatrixAdjoint() * (*f_ext)[i];
-      }            
     } else {
       model.f[i].setZero();
+    }
+    // external forces act on massless (virtual) bodies as well, as in InverseDynamics
+#ifdef RBDL_USE_CASADI_MATH
+    if (f_ext != NULL)
+#else
+    if (f_ext != NULL && (*f_ext)[i] != SpatialVector::Zero())
+#endif
+    {
+      model.f[i] -= model.X_base[i].toMatrixAdjoint() * (*f_ext)[i];
     }
   }
 
